@@ -40,7 +40,7 @@ func (c addCase) inputTokens() string {
 	keep := []string{"add"}
 	for _, x := range f[1:] {
 		switch {
-		case strings.HasPrefix(x, "cr="), strings.HasPrefix(x, "au="):
+		case strings.HasPrefix(x, "sv="), strings.HasPrefix(x, "cr="), strings.HasPrefix(x, "au="):
 			keep = append(keep, x)
 		}
 	}
@@ -90,8 +90,8 @@ var lastPinCid cid.Cid // set by the recording Cluster.Pin (add suite only; requ
 const addFileContent = "hello from the C11 harness: a small file that fits one chunk unless the chunker is tiny\n"
 
 func (h *harness) execAdd(c addCase) (string, error) {
-	s := h.server(c.creds)
-	u := "http://" + s.addr + "/add"
+	s := h.server(c.creds, c.sv)
+	u := s.scheme + "://" + s.addr + "/add"
 	if q := c.rawQuery(); q != "" {
 		u += "?" + q
 	}
@@ -227,6 +227,7 @@ func genAdd(r *common.Rng) addCase {
 	c := addCase{mp: "ok"}
 	c.method, c.segs, c.body, c.rpc = "POST", []string{"add"}, "-", "ok"
 	c.creds = credsFor(r, 1, 4)
+	c.sv = svFor(r)
 	c.auth = authFor(r, c.creds)
 	if r.Chance(1, 6) {
 		c.rpc = "err"
@@ -333,5 +334,17 @@ func sysAdd() []addCase {
 		qparam{key: "expire-in", class: 'v', val: "1"}, qparam{key: "origins", class: 'v', val: "1"}, qparam{key: "shard-size", class: 'v', val: "1024"})
 	c.meta = [][2]int{{1, 2}, {7, 7}}
 	out = append(out, c)
+	for _, sv := range allSv[1:] {
+		for _, st := range []struct {
+			cr int
+			au string
+		}{{0, "n"}, {1, "n"}, {1, "b.u0.p0"}, {1, "b.e.e"}, {2, "b.u1.p1"}} {
+			for _, mp := range []string{"ok", "junk"} {
+				c := mk(st.cr, st.au, mp, "ok")
+				c.sv = sv
+				out = append(out, c)
+			}
+		}
+	}
 	return out
 }
